@@ -45,7 +45,9 @@ for _w in ('b', 'i'):
         EVENTS.append((_w, _d))
     # several conditions in ONE directive: every argument has its own effect, whatever the order of met / unmet ones
     for _d in (('REQUIRES', True, [gd.MET, gd.UNMET_A]), ('REQUIRES', True, [gd.UNMET_A, gd.MET]),
-               ('REQUIRES', False, [gd.MET, gd.UNMET_A]), ('REQUIRES', True, [gd.MET, gd.UNMET_A, gd.UNMET_B])):
+               ('REQUIRES', False, [gd.MET, gd.UNMET_A]), ('REQUIRES', True, [gd.MET, gd.UNMET_A, gd.UNMET_B]),
+               ('REQUIRES', True, [gd.UNMET_A, gd.UNMET_B]), ('REQUIRES', False, [gd.UNMET_A, gd.UNMET_B]),
+               ('REQUIRES', False, [gd.UNMET_B, gd.UNMET_A])):
         EVENTS.append((_w, _d))
 SAT = {gd.MET: '1', gd.UNMET_A: '0', gd.UNMET_B: '0'}
 
